@@ -60,6 +60,7 @@ def run(rep: Report, tier: str) -> None:
     for rid, text in [("R18.1", "all loaders: build_create_table_sql → INSERT → _validate_loaded_table; errors mapped, table dropped"),
                       ("R18.2", "same rejecting guards per component type in the CSV and DataFrame/Parquet SELECT builders"),
                       ("R18.3", "Number is converted from text in every loader"),
+                      ("R18.6", "the CSV read type carries every value of the column's table type exactly (no binary float between the text and BIGINT / DECIMAL)"),
                       ("R18.5", "the same text is stored as the same value: CSV and DataFrame/Parquet builders apply the same value-changing functions per component type")]:
         rep.rule(rid, text)
     # ---- R18.1 -------------------------------------------------------------------------------------------
@@ -127,6 +128,17 @@ def run(rep: Report, tier: str) -> None:
                 rep.add(Finding("R18.5", f"R18.5/{t}/nullable={nullable}", f_csv.module.rel, f_csv.node.lineno, f_csv.qualname,
                                 f"component type {t}: the CSV loader stores the value through {sorted(vc_csv) or 'no function'} and the DataFrame/Parquet loader through "
                                 f"{sorted(vc_df) or 'no function'}: the same text (e.g. a lower-case or blank-padded value) is stored - and accepted or rejected - differently depending on the input form"))
+            # R18.6: the CSV read type is an exact carrier for the table type (the DataFrame/Parquet forms hand the values over in their own type)
+            if nullable:
+                rt_u = str(csv_type).upper()
+                tbl = {"Integer": "BIGINT (64-bit integers)", "Number": "DECIMAL(p,s) with p > 15 significant digits"}.get(t)
+                if tbl is not None:
+                    rep.instance("R18.6", f"carrier/{t}", nontrivial=True, sample={"type": t, "csv_read_type": csv_type})
+                    if rt_u.split("(")[0] in ("DOUBLE", "FLOAT", "REAL", "FLOAT4", "FLOAT8"):
+                        rep.add(Finding("R18.6", f"R18.6/carrier/{t}", f_rt.module.rel, f_rt.node.lineno, f_rt.qualname,
+                                        f"{t} column of a CSV file: is read as {csv_type}, a binary float with 53 significant bits, and then cast to {tbl}: a value with more than "
+                                        f"15-17 significant digits (e.g. {'9007199254740993' if t == 'Integer' else '123456789012345678'}) is stored as a neighbouring value, "
+                                        f"and two distinct identifiers collapse into a duplicate, while the DataFrame and Parquet forms keep the value exact"))
             if t == "Number":
                 for st, sql in df_sqls.items():
                     rep.instance("R18.3", f"Number/source={st}", nontrivial=True, sample={"source_type": st, "sql": sql})
